@@ -102,8 +102,8 @@ def cases(tier, seed):
             for sname in S:
                 if quick:
                     # quick tier: every scheme on the random complex state of every model; the other initial states on one model
-                    if init != "random-complex" and fam != "eph":
-                        continue
+                    if init != "random-complex" and fam != "eph" and not (init == "complex-regauged" and fam == "spin"):
+                        continue     # (the unlabelled chain is where the gauge matrices of the regauged state are full)
                     if init in ("centre-mid", "right-canonical") and sname.startswith("pc-rk:") and sname not in ("pc-rk:C_RK4", "pc-rk:RKF45:adaptive"):
                         continue
                 if init == "mpdm" and sname.split(":")[0] in ("cmf-midpoint", "cmf-first-order", "cmf-trapz", "vmf", "mu-vmf"):
@@ -375,6 +375,29 @@ def run_ladder_(desc, seed):
             add(viol, f"C09:input-changed:{desc['scheme'].split(':')[0]}", f"{tag} dt={dt}: the input state changed")
         if out is psi0:
             add(viol, f"C09:returns-input:{desc['scheme'].split(':')[0]}", f"{tag}")
+    # the same vector in two gauges: the regauged state against its left-canonical original (differential, much sharper than the envelope of
+    # the regularised mean-field schemes): the two results may differ by what each of them differs from the dense propagator, not more
+    if desc["init"] == "complex-regauged" and not viol:
+        try:
+            can = make_init(ch, sec, "random-complex", H)
+            can.ensure_left_canonical()
+            can.evolve_config = make_config(spec)
+            can.compress_config = CompressConfig(CompressCriteria.fixed, max_bonddim=64)
+            if close(dense_of(can), v0, 1e-9):
+                dt = 0.1
+                oc = dense_of(run(can, dt))
+                og = dense_of(run(psi0, dt))
+                ref = exact(dt)
+                ec = np.linalg.norm(oc - ref) / np.linalg.norm(ref)
+                dev = np.linalg.norm(og - oc) / np.linalg.norm(ref)
+                if dev > 20 * ec + 1e-6:
+                    add(viol, f"C09:gauge-dependence:{desc['scheme'].split(':')[0]}", f"{tag} dt={dt}: the result for the regauged state differs from the result for its left-canonical "
+                        f"original (same vector) by rel {dev:.3e}, the latter is within {ec:.3e} of the dense propagator")
+        except BudgetExceeded:
+            pass
+        except Exception as e:
+            if not refusal(e):
+                add(viol, f"C09:exception:{classify_exception(e)}:{desc['scheme'].split(':')[0]}:{desc['init']}", f"{tag} gauge comparison: {e!r}")
     # order
     if order and not viol:
         for a, b in zip(LADDER[:-1], LADDER[1:]):
